@@ -386,7 +386,9 @@ def compiled_part(run, compiled, work):
     if os.path.exists(log):
         for line in open(log):
             try:
-                entries.append(json.loads(line))
+                e = json.loads(line)
+                if e.get("stage") != "returned":      # the hook's second line per invocation (what the macro hands back) is C18's
+                    entries.append(e)
             except ValueError:
                 pass
     for c in dcases:
